@@ -1,12 +1,17 @@
 import Rg.Proofs.Loader
+import Rg.Proofs.ConvWf
+import Rg.Model.Macro
 import Rg.Gen.Buckets
 /-!
 # C06 — Load never crashes; accepted rules are structurally sound  (IR-level loader)
 
-**Partial by construction**: the theorems are about `Loader.loadFile`, the model of
-`ir_loader.go` from `ir.File` onwards.  The front half (go/parser, go/types, irconv's walk over the
-rules file, gogrep/regexp/typematch compilation) is covered by the harness's differential and
-mutation stream only, which is a search, not a proof.
+Two models meet here: `Loader.loadFile` (`ir_loader.go` from `ir.File` onwards) and `Conv.convert` /
+`Comp.convertRuleG` (`irconv.go`: `convertFilterExpr` outside helper bodies, and `convertRuleExpr`
+after the chain walk).  `load_total` needs the IR to be well-formed (`wfFile`); `convert_wf` proves
+that what the converter accepts is — so `source_load_total` has no such hypothesis left.
+Still outside the proof (covered by the harness's differential, look-alike and mutation streams
+only): go/parser, go/types, the chain walk itself, `localDefine`/`expandMacro` (helper calls: see
+C18), doc comments, `Import`, custom declarations and their quasigo compilation, bundles.
 -/
 namespace C06
 open Loader
@@ -264,5 +269,150 @@ example : tagsInRange { o0 with strict := true } genTags := by
   simp [o0] at h
   obtain ⟨rfl, _⟩ := h
   right; right; right; right; right; decide
+
+/-! ## the composition: source AST → (irconv) → IR → (ir_loader) → rules -/
+section composition
+open Conv Comp
+
+/-- **tables_agree**: the two regenerated op tables the two models are written against
+(`Gen/IROpNames.lean` for the converter, `Gen/FilterOps.lean` for the loader) number and flag the ops
+identically — so `toFE` may carry op numbers over unchanged. -/
+theorem tables_agree :
+    Gen.irOpNames = (List.range Gen.Op.names.length).zip Gen.Op.names ∧
+    Gen.irOpFlags = (List.range Gen.Op.flags.length).zip
+      (Gen.Op.flags.map fun f => (if f.1 then 1 else 0) + (if f.2.1 then 2 else 0) + (if f.2.2 then 4 else 0)) :=
+  Comp.tables_agree
+
+/-- **convert_wf**: for every annotated source expression, whatever `convertFilterExpr` (with the arity
+check of fixes/c06-predicate-arity.diff) accepts satisfies the loader's well-formedness predicate at
+every fuel — in particular at the fuel `newFilter` is run with.  For every decoding of Go strings. -/
+theorem convert_wf (dec : Bytes → String) (e : CExpr) (fe : IR.FilterExpr) (h : Conv.convert e = .ok fe) :
+    ∀ n, wfFE n (toFE dec fe) = true :=
+  (out_good dec fe (convertG_out e fe h)).1
+
+/-- … and it is a well-formed operand of a comparison (what makes `convert_wf` compositional) -/
+theorem convert_wf_operand (dec : Bytes → String) (e : CExpr) (fe : IR.FilterExpr) (h : Conv.convert e = .ok fe) :
+    wfOperand (toFE dec fe) = true :=
+  (out_good dec fe (convertG_out e fe h)).2
+
+/-- **convert_total**: the converter itself answers with IR or a located error on every annotated
+expression (before and after the arity repair: its own partial operations were guarded by 149f4cd) -/
+theorem convert_total (ar : Bool) (e : CExpr) : ∀ p, convertG ar e ≠ .panic p := convertG_noPanic ar e
+
+/-- **source_filter_load_total**: for every source filter expression the converter accepts, the
+loader's `newFilter` on the converted IR does not panic. -/
+theorem source_filter_load_total (o : Oracles) (hs : o.strict = true) (dec : Bytes → String)
+    (e : CExpr) (fe : IR.FilterExpr) (h : Conv.convert e = .ok fe) :
+    NoPanic (newFilter o (feSize (toFE dec fe) + 1) (toFE dec fe)) :=
+  newFilter_noPanic o hs _ _ (convert_wf dec e fe h _)
+
+/-- helper calls (`findLocalMacro`) are outside `Conv`: `expandMacro` builds a *source* expression —
+`Macro.expand`, by `C18.macro_transparent` the helper's body with the arguments substituted — and
+hands it to `convertFilterExpr` again.  So for a helper call the statement is `convert_wf` /
+`source_filter_load_total` applied to the annotated tree `e'` of the expanded expression: nothing about
+the expansion itself is needed beyond its totality (`C18.macro_total`). -/
+theorem source_filter_load_total_expanded (o : Oracles) (hs : o.strict = true) (dec : Bytes → String)
+    (annotate : Macro.GExpr → CExpr) (matcher : String) (params : List String) (args : List Macro.GExpr)
+    (body expanded : Macro.GExpr) (_hexp : Macro.expand matcher params args body = .ok expanded)
+    (fe : IR.FilterExpr) (h : Conv.convert (annotate expanded) = .ok fe) :
+    NoPanic (newFilter o (feSize (toFE dec fe) + 1) (toFE dec fe)) :=
+  source_filter_load_total o hs dec _ fe h
+
+/-- **convertRule_total**: `convertRuleExpr` after fixes/c06-chain-arity.diff never panics, whatever
+the clauses' argument lists are (a user type with methods named like the DSL's can call them with none) -/
+theorem convertRule_total (dec : Bytes → String) (c : Chain) : ∀ p, convertRuleG true dec c ≠ .panic p :=
+  convertRuleG_noPanic dec c
+
+/-- **convertRule_wf**: the rule it appends is inside the loader's domain -/
+theorem convertRule_wf (dec : Bytes → String) (c : Chain) (r : Rule) (h : convertRuleG true dec c = .ok r) :
+    wfRule r = true := convertRuleG_wf dec c r h
+
+/-- **source_rule_load_total**: a rule the converter produced loads without a panic -/
+theorem source_rule_load_total (o : Oracles) (tc : TagCfg) (hs : o.strict = true) (hr : tagsInRange o tc)
+    (dec : Bytes → String) (g : String) (c : Chain) (r : Rule) (h : convertRuleG true dec c = .ok r) :
+    NoPanic (loadRule o tc g r) :=
+  loadRule_noPanic o tc hs hr g r (convertRule_wf dec c r h)
+
+/-- **source_load_total**: conversion of the rule groups followed by loading never panics — neither
+half, and with no well-formedness hypothesis: either the converter reports a located error, or the
+loader returns a rule set or a located error. -/
+theorem source_load_total (o : Oracles) (tc : TagCfg) (hs : o.strict = true) (hr : tagsInRange o tc)
+    (dec : Bytes → String) (gs : List SrcGroup) :
+    (∀ p, convertFileG true dec gs ≠ .panic p) ∧
+    (∀ f, convertFileG true dec gs = .ok f → NoPanic (loadFile o tc f)) :=
+  ⟨convertFileG_noPanic dec gs, fun f h => load_total o tc f hs hr (convertFileG_wf dec gs f h)⟩
+
+/-- **source_accepted_rules_bound**: the soundness of accepted rules carries over to rules files: every
+alternative accepted from converted source binds every variable its Where and At() clauses mention. -/
+theorem source_accepted_rules_bound (o : Oracles) (tc : TagCfg) (hs : o.strict = true)
+    (dec : Bytes → String) (gs : List SrcGroup) (f : File) (_h : convertFileG true dec gs = .ok f)
+    (as : List Accepted) (hl : loadFile o tc f = lok as) : ∀ a ∈ as, sound a = true :=
+  accepted_rules_bound o tc f hs as hl
+
+end composition
+
+/-! ### non-vacuity and the defects of the converter as it was (kernel-checked) -/
+section examples
+open Conv Comp
+
+def an : Ann := ⟨.none, false⟩
+def litS (s : Bytes) : CExpr := .lit ⟨.str s, false⟩ true (some s)
+/-- `m["x"]` -/
+def mx : CExpr := .index an (.ident an "m") (litS [120])
+/-- `m["x"].Text.Matches(args…)` — with `args = []` only a user type's look-alike method type-checks -/
+def textMatches (args : List CExpr) : CExpr := .call an (.sel an (.sel an mx "Text") "Matches") args
+
+theorem mkOp_op (n : String) (v : IR.Val) (a : List IR.FilterExpr) : (mkOp n v a).op = IR.opNamed n := rfl
+theorem opn_String : IR.opNamed "String" = 46 := by decide
+theorem opn_VarTextMatches : IR.opNamed "VarTextMatches" = 34 := by decide
+
+/-- the repaired oracles of `o0` -/
+def o1 : Oracles := { o0 with strict := true }
+
+-- `Where(m["x"].Text.Matches("a"))`: accepted by the converter, inside the loader's domain, loaded
+theorem conv_textMatches :
+    Conv.convert (textMatches [litS [97]]) = .ok (mkOp "VarTextMatches" (.str [120]) [mkOp "String" (.str [97]) []]) := by
+  simp [Conv.convert, textMatches, convertG, convertImplG, convertStructG, convertListG, an, mx, litS, CExpr.ann, inspect,
+    pathAt, pathUnder, unparen, toStringValue, stringValueCalls, listCalls, argCalls, List.lookup, mkOp_op, opn_String,
+    opn_VarTextMatches]
+example : ∀ n, wfFE n (toFE latin1 (mkOp "VarTextMatches" (.str [120]) [mkOp "String" (.str [97]) []])) = true :=
+  convert_wf latin1 _ _ conv_textMatches
+example : (match newFilter o1 3 (toFE latin1 (mkOp "VarTextMatches" (.str [120]) [mkOp "String" (.str [97]) []])) with
+    | .ok (.ok vs) => vs == ["x"] | _ => false) = true := by decide
+
+-- defect 3 (before fixes/c06-predicate-arity.diff): `Where(v.Text.Matches())` is accepted with `Args: []` …
+theorem asis_textMatches0 : Conv.convertAsIs (textMatches []) = .ok (mkOp "VarTextMatches" (.str [120]) []) := by
+  simp [Conv.convertAsIs, textMatches, convertG, convertImplG, convertStructG, convertListG, an, mx, litS, CExpr.ann, inspect,
+    pathAt, pathUnder, unparen, toStringValue, stringValueCalls, listCalls, argCalls, List.lookup, mkOp_op, opn_VarTextMatches]
+-- … which is outside the loader's domain, and `newFilter` reads `filter.Args[0]`:
+example : wfFE 2 (toFE latin1 (mkOp "VarTextMatches" (.str [120]) [])) = false := by decide
+example : (match newFilter o1 2 (toFE latin1 (mkOp "VarTextMatches" (.str [120]) [])) with
+    | .panic .index => true | _ => false) = true := by decide
+-- after the repair it is a located error of the converter
+example : Conv.convert (textMatches []) = .err := by
+  simp [Conv.convert, textMatches, convertG, convertImplG, convertStructG, convertListG, an, mx, litS, CExpr.ann, inspect,
+    pathAt, pathUnder, unparen, toStringValue, stringValueCalls, argCalls, List.lookup]
+
+/-- `t.Match("x").At().Report("")` after the chain walk -/
+def chainAt0 : Chain :=
+  { line := 5, matchArgs := some [(5, litS [120])], matchCommentArgs := none, whereArgs := none, suggestArgs := none,
+    reportArgs := some [litS []], atArgs := some [], doArgs := none }
+
+-- defect 2 (before fixes/c06-chain-arity.diff): `(*atArgs)[0]` on an empty argument list; a located error after
+example : (match convertRuleG false latin1 chainAt0 with | .panic .index => true | _ => false) = true := by decide
+example : (match convertRuleG true latin1 chainAt0 with | .err => true | _ => false) = true := by decide
+-- the same for Where(), Suggest(), Report(), Do() without arguments
+example : ([{ chainAt0 with atArgs := none, whereArgs := some [] }, { chainAt0 with atArgs := none, suggestArgs := some [] },
+    { chainAt0 with atArgs := none, reportArgs := some [] },
+    { chainAt0 with atArgs := none, reportArgs := none, doArgs := some [] }].all fun c =>
+      (match convertRuleG false latin1 c with | .panic .index => true | _ => false) &&
+      (match convertRuleG true latin1 c with | .err => true | _ => false)) = true := by decide
+
+-- non-vacuity of `source_load_total`: a group with `m.Match("x").At(m["x"]).Report("")` converts and loads
+def chainOK : Chain := { chainAt0 with atArgs := some [mx] }
+example : (match convertFileG true latin1 [⟨4, "g", [chainOK]⟩] with
+    | .ok f => (match loadFile o1 genTags f with | .ok (.ok as) => as.length == 1 | _ => false) | _ => false) = true := by decide
+
+end examples
 
 end C06
